@@ -30,7 +30,9 @@ SLOW = 0.4
 
 def gen(r, tier):
     nclients = r.choice([1, 2, 2, 3])
-    mids = [r.randrange(0, 65536) for _ in range(2)] + [0, 0xFFFF]
+    # a small pool so that clients collide with each other, plus IDs the SERVER will use for its own messages
+    # (separate responses; the clients acknowledge those, so the same number occurs in both directions)
+    mids = [r.randrange(0, 65536) for _ in range(2)] + [0, 0xFFFF] + [0x1000 + r.randrange(0, 4) for _ in range(2)]
     reqs = []
     n = r.randint(1, 6)
     used = set()
@@ -66,6 +68,11 @@ def systematic(tier):
                         {"id": 1, "client": 1, "mid": 7, "con": con, "handler": h, "no_response": nr, "t": 0.01,
                          "copies": []}]})
     return out
+
+
+def draw_bias(scn):
+    # the server numbers its own messages from here (see gen)
+    return {"mm": {"randint": lambda r, a, b: 0x1000}}
 
 
 def shrink(scn):
